@@ -9,6 +9,9 @@ macro_rules! int_value {
         #[kani::proof]
         #[kani::unwind(12)]
         #[kani::stub(alloc::fmt::format, stub_format)]
+        #[kani::stub(<f64 as core::str::FromStr>::from_str, stub_f64_from_str)]
+        #[kani::stub(core::str::from_utf8, stub_from_utf8)]
+        #[kani::stub(f64::powi, stub_powi)]
         fn $name() {
             let c: [u8; $l] = kani::any();
             let mut b = [0u8; $l + 3];
@@ -52,6 +55,9 @@ int_value!(int_value_8, 8);
 #[kani::proof]
 #[kani::unwind(13)]
 #[kani::stub(alloc::fmt::format, stub_format)]
+#[kani::stub(<f64 as core::str::FromStr>::from_str, stub_f64_from_str)]
+#[kani::stub(core::str::from_utf8, stub_from_utf8)]
+#[kani::stub(f64::powi, stub_powi)]
 fn int_value_overlong() {
     let c: [u8; 10] = kani::any();
     let l: u8 = kani::any();
@@ -77,4 +83,342 @@ fn int_value_overlong() {
     } else {
         kani::cover!(true, "rejected");
     }
+}
+
+// ------------------------------------------------------------------------------------
+// unsigned application types
+
+macro_rules! u32_value {
+    ($name:ident, $t:ty, $tag:expr, $variant:ident, $l:tt) => {
+        #[kani::proof]
+        #[kani::unwind(12)]
+        #[kani::stub(alloc::fmt::format, stub_format)]
+        #[kani::stub(<f64 as core::str::FromStr>::from_str, stub_f64_from_str)]
+        #[kani::stub(core::str::from_utf8, stub_from_utf8)]
+        #[kani::stub(f64::powi, stub_powi)]
+        fn $name() {
+            let c: [u8; $l] = kani::any();
+            let mut b = [0u8; $l + 3];
+            b[0] = $tag;
+            b[1] = $l;
+            b[2..2 + $l].copy_from_slice(&c);
+            b[2 + $l] = kani::any();
+            // in-range values only: content longer than 4 octets must start with zero octets
+            if $l > 4 {
+                kani::assume(spec_uint(&c) <= u32::MAX as u64);
+            }
+            let (tail, v) = <$t>::from_ber(&b).expect("well-formed unsigned value accepted");
+            assert!(v.0 as u64 == spec_uint(&c), "u32_value_is_big_endian");
+            assert!(tail.len() == 1, "u32_tail_is_rest");
+            match SnmpValue::from_ber(&b) {
+                Ok((t2, SnmpValue::$variant(v2))) => assert!(v2.0 == v.0 && t2.len() == 1, "value_dispatch_u32_same"),
+                _ => panic!("value_dispatch_u32_variant"),
+            }
+            kani::cover!(v.0 == u32::MAX, "max");
+        }
+    };
+}
+//@ C02,C16 quick | Counter32 content of 4 octets, all values: == unsigned big endian, via typed decoder and SnmpValue
+u32_value!(c32_value_4, SnmpCounter32, 0x41, Counter32, 4);
+//@ C02,C16 quick | Counter32 content of 5 octets with a leading zero octet (values 0..2^32-1)
+u32_value!(c32_value_5, SnmpCounter32, 0x41, Counter32, 5);
+//@ C02,C16 quick | Gauge32 content of 4 octets, all values
+u32_value!(g32_value_4, SnmpGauge32, 0x42, Gauge32, 4);
+//@ C02,C16 quick | Gauge32 content of 5 octets with a leading zero octet
+u32_value!(g32_value_5, SnmpGauge32, 0x42, Gauge32, 5);
+//@ C02,C16 quick | TimeTicks content of 4 octets, all values
+u32_value!(tt_value_4, SnmpTimeTicks, 0x43, TimeTicks, 4);
+//@ C02,C16 quick | TimeTicks content of 5 octets with a leading zero octet
+u32_value!(tt_value_5, SnmpTimeTicks, 0x43, TimeTicks, 5);
+//@ C02,C16 quick | UInteger32 content of 4 octets, all values
+u32_value!(u32_value_4, SnmpUInteger32, 0x47, UInteger32, 4);
+//@ C02,C16 quick | UInteger32 content of 5 octets with a leading zero octet
+u32_value!(u32_value_5, SnmpUInteger32, 0x47, UInteger32, 5);
+
+macro_rules! c64_value {
+    ($name:ident, $l:tt) => {
+        #[kani::proof]
+        #[kani::unwind(12)]
+        #[kani::stub(alloc::fmt::format, stub_format)]
+        #[kani::stub(<f64 as core::str::FromStr>::from_str, stub_f64_from_str)]
+        #[kani::stub(core::str::from_utf8, stub_from_utf8)]
+        #[kani::stub(f64::powi, stub_powi)]
+        fn $name() {
+            let c: [u8; $l] = kani::any();
+            let mut b = [0u8; $l + 3];
+            b[0] = 0x46;
+            b[1] = $l;
+            b[2..2 + $l].copy_from_slice(&c);
+            b[2 + $l] = kani::any();
+            if $l > 8 {
+                kani::assume(c[0] == 0); // 9 octets: leading zero octet, value in 0..2^64-1
+            }
+            let (tail, v) = SnmpCounter64::from_ber(&b).expect("well-formed Counter64 accepted");
+            let want = if $l > 8 { spec_uint(&c[1..]) } else { spec_uint(&c) };
+            assert!(v.0 == want, "c64_value_is_big_endian");
+            assert!(tail.len() == 1, "c64_tail_is_rest");
+            match SnmpValue::from_ber(&b) {
+                Ok((t2, SnmpValue::Counter64(v2))) => assert!(v2.0 == v.0 && t2.len() == 1, "value_dispatch_c64_same"),
+                _ => panic!("value_dispatch_c64_variant"),
+            }
+            kani::cover!(v.0 > 0x7f, "large value");
+        }
+    };
+}
+//@ C02,C16 quick | Counter64 content of 1 octet, all values
+c64_value!(c64_value_1, 1);
+//@ C02,C16 quick | Counter64 content of 8 octets, all values
+c64_value!(c64_value_8, 8);
+//@ C02,C16 quick | Counter64 content of 9 octets with a leading zero octet (values >= 2^63 included)
+c64_value!(c64_value_9, 9);
+
+// ------------------------------------------------------------------------------------
+// byte-string types: the returned slice is exactly the content octets (address and length)
+
+macro_rules! bytes_value {
+    ($name:ident, $t:ident, $tag:expr, $variant:ident, $l:tt, $hdr:expr, $hl:tt) => {
+        #[kani::proof]
+        #[kani::unwind(6)]
+        #[kani::stub(alloc::fmt::format, stub_format)]
+        #[kani::stub(<f64 as core::str::FromStr>::from_str, stub_f64_from_str)]
+        #[kani::stub(core::str::from_utf8, stub_from_utf8)]
+        #[kani::stub(f64::powi, stub_powi)]
+        fn $name() {
+            // content: first, middle and last octet symbolic, the rest zero (the decoder only slices; a fully symbolic
+            // 256-octet array costs CBMC minutes in kani::any() alone)
+            let mut b = [0u8; $hl + $l + 1];
+            if $l > 0 {
+                b[$hl] = kani::any();
+                b[$hl + $l / 2] = kani::any();
+                b[$hl + $l - 1] = kani::any();
+            }
+            b[$hl + $l] = kani::any();
+            let hdr: [u8; $hl] = $hdr;
+            b[0] = $tag;
+            let mut i = 1;
+            while i < $hl {
+                b[i] = hdr[i];
+                i += 1;
+            }
+            let (tail, v) = $t::from_ber(&b).expect("well-formed byte string accepted");
+            assert!(v.0.as_ptr() as usize == b.as_ptr() as usize + $hl && v.0.len() == $l, "bytes_value_is_content_slice");
+            assert!(tail.as_ptr() as usize == b.as_ptr() as usize + $hl + $l && tail.len() == 1, "bytes_tail_is_rest");
+            match SnmpValue::from_ber(&b) {
+                Ok((t2, SnmpValue::$variant(v2))) => {
+                    assert!(v2.0.as_ptr() == v.0.as_ptr() && v2.0.len() == $l && t2.len() == 1, "value_dispatch_bytes_same")
+                }
+                _ => panic!("value_dispatch_bytes_variant"),
+            }
+            kani::cover!(true, "decoded");
+        }
+    };
+}
+//@ C02,C16 quick | OCTET STRING of 0 octets (short form), trailing octet present
+bytes_value!(octets_0, SnmpOctetString, 0x04, OctetString, 0, [0, 0], 2);
+//@ C02,C16 quick | OCTET STRING of 5 symbolic octets (short form)
+bytes_value!(octets_5, SnmpOctetString, 0x04, OctetString, 5, [0, 5], 2);
+//@ C02,C16 quick | OCTET STRING of 127 symbolic octets (largest short form)
+bytes_value!(octets_127, SnmpOctetString, 0x04, OctetString, 127, [0, 127], 2);
+//@ C02,C16 quick | OCTET STRING of 128 symbolic octets (long form 81 80)
+bytes_value!(octets_128, SnmpOctetString, 0x04, OctetString, 128, [0, 0x81, 128], 3);
+//@ C02,C16 quick | OCTET STRING of 255 symbolic octets (long form 81 ff)
+bytes_value!(octets_255, SnmpOctetString, 0x04, OctetString, 255, [0, 0x81, 255], 3);
+//@ C02,C16 quick | OCTET STRING of 256 symbolic octets (long form 82 01 00)
+bytes_value!(octets_256, SnmpOctetString, 0x04, OctetString, 256, [0, 0x82, 1, 0], 4);
+//@ C02,C16 quick | Opaque of 5 symbolic octets
+bytes_value!(opaque_5, SnmpOpaque, 0x44, Opaque, 5, [0, 5], 2);
+//@ C02,C16 quick | Opaque of 130 symbolic octets (long form)
+bytes_value!(opaque_130, SnmpOpaque, 0x44, Opaque, 130, [0, 0x81, 130], 3);
+//@ C02,C16 quick | ObjectDescriptor of 5 symbolic octets
+bytes_value!(objdesc_5, SnmpObjectDescriptor, 0x07, ObjectDescriptor, 5, [0, 5], 2);
+
+//@ C02,C16 quick | OBJECT IDENTIFIER value of 6 symbolic content octets: content slice identity, through typed decoder and SnmpValue
+#[kani::proof]
+#[kani::unwind(8)]
+#[kani::stub(alloc::fmt::format, stub_format)]
+#[kani::stub(<f64 as core::str::FromStr>::from_str, stub_f64_from_str)]
+#[kani::stub(core::str::from_utf8, stub_from_utf8)]
+#[kani::stub(f64::powi, stub_powi)]
+fn oid_value_6() {
+    let mut b: [u8; 9] = kani::any();
+    b[0] = 0x06;
+    b[1] = 6;
+    let (tail, v) = SnmpOid::from_ber(&b).expect("well-formed OID accepted");
+    assert!(v.0.as_ptr() as usize == b.as_ptr() as usize + 2 && v.0.len() == 6, "oid_value_is_content_slice");
+    assert!(tail.len() == 1, "oid_tail_is_rest");
+    match SnmpValue::from_ber(&b) {
+        Ok((t2, SnmpValue::Oid(v2))) => assert!(v2.0.as_ptr() == v.0.as_ptr() && v2.0.len() == 6 && t2.len() == 1, "value_dispatch_oid_same"),
+        _ => panic!("value_dispatch_oid_variant"),
+    }
+    kani::cover!(true, "decoded");
+    core::mem::forget(v);
+}
+
+//@ C02,C16 quick | BOOLEAN, NULL, IpAddress, and the three exception values through SnmpValue::from_ber with a trailing octet
+#[kani::proof]
+#[kani::unwind(8)]
+#[kani::stub(alloc::fmt::format, stub_format)]
+#[kani::stub(<f64 as core::str::FromStr>::from_str, stub_f64_from_str)]
+#[kani::stub(core::str::from_utf8, stub_from_utf8)]
+#[kani::stub(f64::powi, stub_powi)]
+fn small_values() {
+    let x: u8 = kani::any();
+    let t: u8 = kani::any();
+    let b = [0x01u8, 1, x, t];
+    match SnmpValue::from_ber(&b) {
+        Ok((tail, SnmpValue::Bool(v))) => {
+            let bv: bool = v.into();
+            assert!(bv == (x != 0) && tail.len() == 1, "bool_value");
+        }
+        _ => panic!("bool_variant"),
+    }
+    let n = [0x05u8, 0, t];
+    assert!(matches!(SnmpValue::from_ber(&n), Ok((tail, SnmpValue::Null)) if tail.len() == 1), "null_value");
+    let ip: [u8; 4] = kani::any();
+    let ib = [0x40u8, 4, ip[0], ip[1], ip[2], ip[3], t];
+    match SnmpValue::from_ber(&ib) {
+        Ok((tail, SnmpValue::IpAddress(_))) => assert!(tail.len() == 1, "ip_tail"),
+        _ => panic!("ip_variant"),
+    }
+    assert!(matches!(SnmpValue::from_ber(&[0x80u8, 0, t]), Ok((tail, SnmpValue::NoSuchObject)) if tail.len() == 1), "nosuchobject_value");
+    assert!(matches!(SnmpValue::from_ber(&[0x81u8, 0, t]), Ok((tail, SnmpValue::NoSuchInstance)) if tail.len() == 1), "nosuchinstance_value");
+    assert!(matches!(SnmpValue::from_ber(&[0x82u8, 0, t]), Ok((tail, SnmpValue::EndOfMibView)) if tail.len() == 1), "endofmibview_value");
+    kani::cover!(x != 0, "true");
+}
+
+// ------------------------------------------------------------------------------------
+// REAL
+
+//@ C02 quick | REAL special values 40/41/42/43 and the empty encoding through SnmpValue::from_ber: +inf, -inf, NaN, -0, +0
+#[kani::proof]
+#[kani::unwind(8)]
+#[kani::stub(alloc::fmt::format, stub_format)]
+#[kani::stub(<f64 as core::str::FromStr>::from_str, stub_f64_from_str)]
+#[kani::stub(core::str::from_utf8, stub_from_utf8)]
+#[kani::stub(f64::powi, stub_powi)]
+fn real_special() {
+    let t: u8 = kani::any();
+    let k: u8 = kani::any();
+    kani::assume(k < 4);
+    let b = [0x09u8, 1, 0x40 | k, t];
+    match SnmpValue::from_ber(&b) {
+        Ok((tail, SnmpValue::Real(r))) => {
+            let f: f64 = r.into();
+            assert!(tail.len() == 1, "real_tail");
+            match k {
+                0 => assert!(f == f64::INFINITY, "real_plus_inf"),
+                1 => assert!(f == f64::NEG_INFINITY, "real_minus_inf"),
+                2 => assert!(f.is_nan(), "real_nan"),
+                _ => assert!(f == 0.0 && f.is_sign_negative(), "real_minus_zero"),
+            }
+        }
+        _ => panic!("real_special_rejected"),
+    }
+    let z = [0x09u8, 0, t];
+    match SnmpValue::from_ber(&z) {
+        Ok((tail, SnmpValue::Real(r))) => {
+            let f: f64 = r.into();
+            assert!(f == 0.0 && f.is_sign_positive() && tail.len() == 1, "real_plus_zero");
+        }
+        _ => panic!("real_empty_rejected"),
+    }
+    kani::cover!(k == 3, "minus zero");
+}
+
+pub static mut REAL_STR_PTR: usize = 0;
+pub static mut REAL_STR_LEN: usize = 0;
+/// records which text reaches the float parser
+pub fn stub_f64_from_str_record(s: &str) -> Result<f64, core::num::ParseFloatError> {
+    unsafe {
+        REAL_STR_PTR = s.as_ptr() as usize;
+        REAL_STR_LEN = s.len();
+    }
+    Ok(kani::any())
+}
+
+//@ C02,C16 quick | REAL decimal NR2/NR3 of 4 content octets + 2 trailing octets: the text handed to the float parser is exactly content[1..] (f64 parser and from_utf8 stubbed)
+#[kani::proof]
+#[kani::unwind(8)]
+#[kani::stub(alloc::fmt::format, stub_format)]
+#[kani::stub(f64::powi, stub_powi)]
+#[kani::stub(<f64 as core::str::FromStr>::from_str, stub_f64_from_str_record)]
+#[kani::stub(core::str::from_utf8, stub_from_utf8)]
+fn real_decimal_extent() {
+    let mut b: [u8; 8] = kani::any();
+    b[0] = 0x09;
+    b[1] = 4;
+    let form: u8 = kani::any();
+    kani::assume(form == 2 || form == 3);
+    b[2] = form;
+    let r = SnmpValue::from_ber(&b);
+    if let Ok((tail, SnmpValue::Real(_))) = &r {
+        assert!(tail.len() == 2, "real_decimal_tail");
+        unsafe {
+            assert!(REAL_STR_PTR == b.as_ptr() as usize + 3 && REAL_STR_LEN == 3, "real_decimal_text_is_content");
+        }
+        kani::cover!(true, "accepted");
+    }
+    core::mem::forget(r);
+}
+
+//@ C02 quick | REAL binary encoding, base 2, scale factor F=0, 1-octet exponent, 1-octet mantissa (the commonest form) must be accepted
+#[kani::proof]
+#[kani::unwind(8)]
+#[kani::stub(alloc::fmt::format, stub_format)]
+#[kani::stub(<f64 as core::str::FromStr>::from_str, stub_f64_from_str)]
+#[kani::stub(core::str::from_utf8, stub_from_utf8)]
+#[kani::stub(f64::powi, stub_powi)]
+fn real_binary_f0_accepted() {
+    // exponent and mantissa concrete (floating-point multiplication on symbolic operands is out of CBMC's reach
+    // within the budget; acceptance does not depend on them), sign symbolic
+    let e: u8 = 1;
+    let m: u8 = 3;
+    let s: bool = kani::any();
+    let b = [0x09u8, 3, 0x80 | if s { 0x40 } else { 0 }, e, m, 0];
+    let r = SnmpValue::from_ber(&b);
+    assert!(matches!(&r, Ok((tail, SnmpValue::Real(_))) if tail.len() == 1), "real_binary_f0_rejected");
+    kani::cover!(true, "accepted");
+    core::mem::forget(r);
+}
+
+pub static mut POWI_N: i32 = 0;
+pub static mut POWI_X: f64 = 0.0;
+pub fn stub_powi_record(x: f64, n: i32) -> f64 {
+    unsafe {
+        POWI_N = n;
+        POWI_X = x;
+    }
+    2.0
+}
+
+//@ C02 quick | REAL binary encoding: base 2/8/16 selected by bits 6-5, exponent of 1 or 2 octets read as TWO'S COMPLEMENT (checked on the operands handed to powi; mantissa concrete)
+#[kani::proof]
+#[kani::unwind(8)]
+#[kani::stub(alloc::fmt::format, stub_format)]
+#[kani::stub(<f64 as core::str::FromStr>::from_str, stub_f64_from_str)]
+#[kani::stub(core::str::from_utf8, stub_from_utf8)]
+#[kani::stub(f64::powi, stub_powi_record)]
+fn real_binary_exponent_base() {
+    let e: [u8; 2] = kani::any();
+    let two: bool = kani::any();
+    let base_bits: u8 = kani::any();
+    kani::assume(base_bits < 3);
+    let first = 0x80 | (base_bits << 4) | (two as u8);
+    let b1 = [0x09u8, 3, first, e[0], 1, 0, 0];
+    let b2 = [0x09u8, 4, first, e[0], e[1], 1, 0];
+    let r = if two { SnmpValue::from_ber(&b2[..]) } else { SnmpValue::from_ber(&b1[..6]) };
+    assert!(matches!(&r, Ok((_, SnmpValue::Real(_)))), "real_binary_rejected");
+    let want_e: i32 = if two { i16::from_be_bytes(e) as i32 } else { e[0] as i8 as i32 };
+    let want_base: f64 = match base_bits {
+        0 => 2.0,
+        1 => 8.0,
+        _ => 16.0,
+    };
+    unsafe {
+        assert!(POWI_N == want_e, "real_binary_exponent_is_twos_complement");
+        assert!(POWI_X == want_base, "real_binary_base");
+    }
+    kani::cover!(want_e < 0, "negative exponent");
+    kani::cover!(two && want_e > 255, "two octet exponent");
+    core::mem::forget(r);
 }
